@@ -220,8 +220,10 @@ func (h Engine) applyLoggerMiddleware(echoServer core.EchoRouter, excludePaths [
 func (h Engine) applyAuthMiddleware(echoServer core.EchoRouter, path string, config AuthConfig) error {
 	address := h.server.getAddressForPath(path)
 
+	// Match on the parsed URL path, which is what the router dispatches on. RequestURI is the raw request target:
+	// it may be in absolute-form (http://host/internal/...) and carries the query string, so it can't be used here.
 	skipper := func(c echo.Context) bool {
-		return !matchesPath(c.Request().RequestURI, path)
+		return !matchesPath(c.Request().URL.Path, path)
 	}
 
 	// Auth
